@@ -1959,3 +1959,14 @@ def m_signature_bind(c):
     pairs = tuple((C(n), mp[n]) for n in names if n in explicit or (n.startswith("*") and mp[n][2]))
     pairs = tuple((C(k[2].lstrip("*")), v) for k, v in pairs)
     c.ret(("nt", "inspect.BoundArguments", (("lit", "dict", pairs, None),)))
+
+
+@ext("os.open")
+def x_os_open(c):
+    """os.open(path, flags[, mode]): a file descriptor (an int) - handed to open() it names that file"""
+    c.rz("OSError", "os.open() may fail", pure=False)
+    path = c.arg(0, "path")
+    pt = c.types(path)
+    if pt is None or not pt <= {"str", "bytes"}:
+        c.rz("TypeError", "os.open() of a non-path value", [("nottype", path, frozenset(["str", "bytes"]))], pure=False)
+    c.ret(None, ("type", c.term, frozenset(["int"])), pure=False)
